@@ -94,10 +94,14 @@ def shortDigest (b : Bytes) : String := s!"{b.length}:{hexOfBytes ((sha256 b).ta
 
 def sortStrings (l : List String) : List String := l.mergeSort (fun a b => decide (a ≤ b))
 
+/-- `Node::stored_chunks()`: a chunk whose deadline has been reached (`now >= expires_at`) is no longer stored -/
+def liveChunks (st : St) : List DChunk :=
+  st.srv.node.chunks.filter fun c => decide (st.now < c.storedAt + c.ttl * nsPerSecond)
+
 def effects (st : St) : String :=
   let files := st.srv.node.files.map fun f => s!"{hexOfBytes f.1}:{shortDigest f.2}"
   let filesS := if files.isEmpty then "-" else ",".intercalate (sortStrings files)
-  s!"st={st.srv.node.chunks.length} mf={st.srv.node.manifests.length} files={filesS} stop={st.srv.stopCalls} ts={if st.srv.transportStopped then 1 else 0} run=1"
+  s!"st={(liveChunks st).length} mf={st.srv.node.manifests.length} files={filesS} stop={st.srv.stopCalls} ts={if st.srv.transportStopped then 1 else 0} run=1"
 
 /-! ## op parsing helpers -/
 
@@ -290,7 +294,7 @@ def fmtProduced (r : Response) (sel : String) : String :=
   s!"ok={if r.success then 1 else 0} n={r.wireFields.length} F={fmtFields r.wireFields sel} P={if r.hasPayload then shortDigest r.payload else "none"}"
 
 def chunkEntries (st : St) : List ChunkEntry :=
-  let es := st.srv.node.chunks.map fun c =>
+  let es := (liveChunks st).map fun c =>
     let remaining := c.storedAt + c.ttl * nsPerSecond - st.now
     ({ idHex := (hexOfBytes (sha256 c.payload)).toList.map (fun ch => UInt8.ofNat ch.toNat), size := c.payload.length, encrypted := true,
        ttl := if remaining ≤ 0 then 0 else (remaining / nsPerSecond).toNat } : ChunkEntry)
@@ -303,7 +307,7 @@ def joinWith (sep : Bytes) : List Bytes → Bytes
   | a :: rest => a ++ sep ++ joinWith sep rest
 
 def statusResponse (st : St) : Response :=
-  let base : Fields := [(ascii "CODE", ascii "OK_STATUS"), (ascii "PEERS", toDec 0), (ascii "CHUNKS", toDec st.srv.node.chunks.length),
+  let base : Fields := [(ascii "CODE", ascii "OK_STATUS"), (ascii "PEERS", toDec 0), (ascii "CHUNKS", toDec (liveChunks st).length),
                         (ascii "TRANSPORT_PORT", toDec 0)]
   let fs := if st.extras.warnings.isEmpty then base else
     base ++ [(ascii "AUTO_ADVERTISE_WARNINGS", st.extras.warnings.flatMap fun w => w ++ [10]),
